@@ -38,7 +38,7 @@ import (
 // (goroutine dump on join time-out), table invariants at quiescence and goroutines
 // that survive Close. The race detector writes its reports to a log the parent reads.
 
-const c09Rule = "scenarios drawn by rapid: a packet loop over 10..60 protocol frames (every C08 frame class, host-tracking churn frames, router advertisements) through Parse -> Process* -> Notify on a reused buffer, a purge goroutine (VerifPurge with advancing time), 1..6 API actors each with 5..40 calls (FindIP, GetHosts + row-locked reads, IPAddrs, FindByMAC, FindMACEntry, PrintTable, Capture, Release, IsCaptured, DHCP offer get/set, ARP/ICMPv6/DHCP StartHunt/StopHunt, IsHunting, MinuteTicker, the handlers' PrintTable, FindRouter, DNSFind/DNSExist), a notification consumer and (1 in 4) a concurrent Close by 1..3 goroutines; the DHCP handler keeps a lease file and the frames include steps of real DHCP dialogues (discover / request / renew / decline / release); one round in three starts with a full-channel drill (nobody reads Session.C, 0..3 free slots, packet loop and purge released together 200..1000 times: no sender may block); drawn pauses (yield / 20 us / 200 us / 2 ms) and GOMAXPROCS 1..16 perturb the schedule; each scenario runs 3 rounds on fresh sessions in a child process built with -race. oracles: race-detector reports (signature = the two innermost library functions), unrecovered runtime faults (concurrent map access), recovered panics, join time-out = deadlock (goroutine dump), C05 invariants once all goroutines have joined and the purge probes are out, no library goroutine left 10 s after Close. non-trivial = at least two actors and a purge overlapped the packet loop (measured in the child); distinct by hash of the scenario"
+const c09Rule = "scenarios drawn by rapid: a packet loop over 10..60 protocol frames (every C08 frame class, host-tracking churn frames, router advertisements) through Parse -> Process* -> Notify on a reused buffer, a purge goroutine (VerifPurge with advancing time), 1..6 API actors each with 5..40 calls (FindIP, GetHosts + row-locked reads, IPAddrs, FindByMAC, FindMACEntry, PrintTable, Capture, Release, IsCaptured, DHCP offer get/set, ARP/ICMPv6/DHCP StartHunt/StopHunt, IsHunting, MinuteTicker, the handlers' PrintTable, FindRouter, DNSFind/DNSExist), a notification consumer and (1 in 4) a concurrent Close by 1..3 goroutines; the DHCP handler keeps a lease file and the frames include steps of real DHCP dialogues (discover / request / renew / decline / release / foreign offer / init-reboot for another address; every other station sends a client identifier that is not its hardware address); one round in three starts with a full-channel drill (nobody reads Session.C, 0..3 free slots, packet loop and purge released together 200..1000 times: no sender may block); drawn pauses (yield / 20 us / 200 us / 2 ms) and GOMAXPROCS 1..16 perturb the schedule; each scenario runs 3 rounds on fresh sessions in a child process built with -race. oracles: race-detector reports (signature = the two innermost library functions), unrecovered runtime faults (concurrent map access), recovered panics, join time-out = deadlock (goroutine dump), C05 invariants once all goroutines have joined and the purge probes are out, no library goroutine left 10 s after Close. non-trivial = at least two actors and a purge overlapped the packet loop (measured in the child); distinct by hash of the scenario"
 
 type c09Frame struct {
 	B     drv.Hex `json:"b"`
@@ -155,8 +155,13 @@ func c09DHCPFrame(w gen.World, e *c08Env, d c09DHCP) []byte {
 			m.CIAddr, src = lease.IP.As4(), lease.IP.As4()
 			dst, dstMAC = w.HostIP.As4(), w.HostMAC
 		}
+	case "reboot-other": // INIT-REBOOT for an address the server never gave this client: NAK, and in secondary mode a forged DECLINE goroutine
+		m.Options = append(m.Options, ref.DHCPOpt{Code: 53, Data: []byte{3}}, ref.DHCPOpt{Code: 50, Data: []byte{192, 168, 0, byte(240 + d.C%8)}})
 	default:
 		return nil
+	}
+	if d.C%2 == 1 { // every other station sends a client identifier that is not its hardware address
+		m.Options = append(m.Options, ref.DHCPOpt{Code: 61, Data: []byte(fmt.Sprintf("\x00station-id-%d", d.C))})
 	}
 	m.Options = append(m.Options, ref.DHCPOpt{Code: 12, Data: []byte(fmt.Sprintf("station-%d", d.C))})
 	return ref.Eth(dstMAC, mac, 0x0800, ref.IP4(ref.IP4Hdr{TotalLen: -1, TTL: 64, Proto: 17, Checksum: -1, Src: src, Dst: dst}, ref.UDP(68, 67, -1, 0, m.Encode(true))))
@@ -919,7 +924,7 @@ func genC09(t *rapid.T) c09Case {
 		var f c09Frame
 		switch rapid.IntRange(0, 6).Draw(t, "frameSource") {
 		case 6: // a step of a DHCP dialogue; discover + request pairs make leases that later steps and the ticker work on
-			d := c09DHCP{C: rapid.IntRange(0, 3).Draw(t, "dhcpClient"), Step: rapid.SampledFrom([]string{"discover", "discover", "request", "request", "renew", "renew", "decline", "release", "foreign-offer", "foreign-offer"}).Draw(t, "dhcpStep")}
+			d := c09DHCP{C: rapid.IntRange(0, 3).Draw(t, "dhcpClient"), Step: rapid.SampledFrom([]string{"discover", "discover", "request", "request", "renew", "renew", "decline", "release", "foreign-offer", "foreign-offer", "reboot-other", "reboot-other"}).Draw(t, "dhcpStep")}
 			if d.Step == "discover" && rapid.IntRange(0, 2).Draw(t, "thenRequest") != 0 {
 				c.Frames = append(c.Frames, c09Frame{Times: 1, DHCP: &c09DHCP{C: d.C, Step: "discover"}})
 				d.Step = "request"
